@@ -322,6 +322,15 @@ package fsutil
 //@   ensures reuse: len(b.chunks) == old(len(b.chunks)) ==> old(len(b.chunks)) > 0 && ref(b.chunks[len(b.chunks)-1]) == old(ref(b.chunks[len(b.chunks)-1])) && off(b.chunks[len(b.chunks)-1]) == old(off(b.chunks[len(b.chunks)-1])) && len(b.chunks[len(b.chunks)-1]) == old(len(b.chunks[len(b.chunks)-1])) + n && ref(result) == old(ref(b.chunks[len(b.chunks)-1])) && off(result) == old(off(b.chunks[len(b.chunks)-1]) + len(b.chunks[len(b.chunks)-1]))
 //@   ensures fresh: len(b.chunks) == old(len(b.chunks)) + 1 ==> result == b.chunks[len(b.chunks)-1] && fresh(result) && (old(len(b.chunks)) > 0 ==> b.chunks[len(b.chunks)-2] == old(b.chunks[len(b.chunks)-1]))
 
+// the listing is written chunk by chunk in order; the byte count is the sum of what was written
+//@ func buffer.WriteTo
+//@   property C19
+//@   requires b != nil
+//@   effects IoWrite
+//@   loop 0 invariant count: cnt(IoWrite) == old(cnt(IoWrite)) + rangeindex + 1 && rangeindex + 1 <= len(b.chunks)
+//@   ensures all_chunks: err == nil ==> cnt(IoWrite) == old(cnt(IoWrite)) + len(b.chunks)
+//@   at call io.Writer.Write: in_order: cnt(IoWrite) - old(cnt(IoWrite)) < len(b.chunks) && arg0 == b.chunks[cnt(IoWrite) - old(cnt(IoWrite))]
+
 // ---------------------------------------------------------------------------
 // receive.go
 // ---------------------------------------------------------------------------
@@ -512,6 +521,29 @@ package fsutil
 //@   note notify_once: the EEXIST retry consults the filter again; a filter that answers differently the second time is excluded by the FilterCall conjunct
 //@   ensures notify_once: err == nil && kind != ChangeKindDelete && retErr == nil && cnt(Lstat) > old(cnt(Lstat)) && cnt(OpenFile) == old(cnt(OpenFile)) && old(dw.opt.NotifyCb) != nil && (old(dw.filter) == nil || arg(FilterCall, 1)) ==> cnt(Notify) == old(cnt(Notify)) + 1 && arg(Notify, 0) == kind && arg(Notify, 1) == p && when(Notify) == clk()
 //@   ensures notify_atmost: cnt(Notify) <= old(cnt(Notify)) + 1
+
+// content of a requested file is written into the entry HandleChange created (opened write-only,
+// never created or truncated here, at most once); a read-only file is made writable only after a
+// permission error, with its own mode plus the write bits, and Close puts the remembered mode back
+//@ func lazyFileWriter.Write
+//@   property C01 C05
+//@   requires lfw != nil
+//@   modifies *lfw, type os.FileMode
+//@   effects OpenFile Stat StatRes Chmod IoWrite
+//@   ensures open_once: old(lfw.f) != nil ==> cnt(OpenFile) == old(cnt(OpenFile)) && cnt(Chmod) == old(cnt(Chmod)) && lfw.f == old(lfw.f)
+//@   ensures opens_dest: cnt(OpenFile) > old(cnt(OpenFile)) ==> arg(OpenFile, 0) == old(lfw.dest) && arg(OpenFile, 1) == os.O_WRONLY && cnt(OpenFile) <= old(cnt(OpenFile)) + 2
+//@   ensures dest_kept: lfw.dest == old(lfw.dest)
+//@   ensures writable_only_when_needed: cnt(Chmod) > old(cnt(Chmod)) ==> cnt(Chmod) == old(cnt(Chmod)) + 1 && arg(Chmod, 0) == old(lfw.dest) && arg(StatRes, 0) != nil && arg(Chmod, 1) == arg(StatRes, 0).Mode() | 0222
+//@   ensures mode_remembered: cnt(Chmod) > old(cnt(Chmod)) ==> lfw.fileMode != nil && *lfw.fileMode == arg(StatRes, 0).Mode()
+//@   ensures written: result1 == nil ==> lfw.f != nil
+
+//@ func lazyFileWriter.Close
+//@   property C01 C05
+//@   requires lfw != nil
+//@   effects Chmod
+//@   ensures restore: result == nil && lfw.fileMode != nil ==> cnt(Chmod) == old(cnt(Chmod)) + 1 && arg(Chmod, 0) == lfw.dest && arg(Chmod, 1) == *lfw.fileMode
+//@   ensures no_restore: lfw.fileMode == nil ==> cnt(Chmod) == old(cnt(Chmod))
+//@   ensures atmost: cnt(Chmod) <= old(cnt(Chmod)) + 1
 
 //@ func nextSuffix
 //@   property C01
